@@ -600,7 +600,25 @@ def run_cli(u, ctx):
     # badly signed: body altered after signing
     bad = good.replace('DATA f 0', 'DATA f 0 MD5 d41d8cd98f00b204e9800998ecf8427e')
     plain = 'DATA f 0\n'
+    import tempfile
     with common.Scratch('vf-c05-') as d:
+        # (debug runs leave their key rings behind: keep them inside the scratch)
+        old_tmp = (os.environ.get('TMPDIR'), tempfile.tempdir)
+        os.makedirs(os.path.join(d, 'tmp'))
+        os.environ['TMPDIR'] = os.path.join(d, 'tmp')
+        tempfile.tempdir = os.path.join(d, 'tmp')
+        try:
+            _run_cli(u, ctx, rng, d, good, bad, plain)
+        finally:
+            tempfile.tempdir = old_tmp[1]
+            if old_tmp[0] is None:
+                os.environ.pop('TMPDIR', None)
+            else:
+                os.environ['TMPDIR'] = old_tmp[0]
+
+
+def _run_cli(u, ctx, rng, d, good, bad, plain):
+    if True:
         kpath = os.path.join(d, 'key.bin')
         with open(kpath, 'wb') as f:
             f.write(keys.VALID_PUBLIC_KEY)
@@ -612,10 +630,17 @@ def run_cli(u, ctx):
             write_tree(tree, text)
             with open(os.path.join(tree, 'f'), 'w'):
                 pass
-            for s in (False, True):
+            for s in (False, True, 'debug'):
+                # (third round: -s together with --debug, whose isolated key ring is
+                # kept for inspection - but is still a fresh one for every run)
+                dbg = s == 'debug'
+                s = bool(s)
                 for P in (False, True):
                     for K in (None, 'signer', 'other'):
                         argv = ['verify', '-R']
+                        if dbg:
+                            argv.append('--debug')
+                            ctx.count('cli:debug_runs')
                         if s:
                             argv.append('-s')
                         if P:
